@@ -60,6 +60,10 @@ func decodeLeafFn(v interface{}) Leaf {
 
 func decodeListFn(v []interface{}, l ListBuilder) {
 	for _, item := range v {
+		if item == nil {
+			l.Append(nilLeaf)
+			continue
+		}
 		t := reflect.ValueOf(item)
 		switch t.Kind() {
 		case reflect.Map:
